@@ -319,7 +319,7 @@ func c05Mutations(doc any) []any {
 }
 
 func runC05(seed int64, n int, tier string, outDir string) (*Report, error) {
-	rep := &Report{Rule: "documents built from an independent model of the vocabulary (type x property subset x value shape: IRI string / embedded object / array / single value in a list position; text as plain string or language map under <term>Map; instants with Z or numeric offset; nesting <= 2; list members with distinct ids) and written by encoding/json; the 19 mock documents of the repository and structure-preserving mutations of them (member order, singleton <-> array in list positions); native: decoded value against the value the document describes (reflection, field by field), then encode/decode fixpoint (value stable up to the normal form after one round, bytes stable); Coq: the decoder model on every generated document; non-trivial = document has at least 4 members; distinct by document text"}
+	rep := &Report{Rule: "documents built from an independent model of the vocabulary (type x property subset x value shape: IRI string / embedded object / array / single value in a list position; text as plain string or language map under <term>Map; instants with Z or numeric offset; nesting <= 2; list members with distinct ids) and written by encoding/json; the 19 mock documents of the repository and structure-preserving mutations of them (member order, singleton <-> array in list positions); native: decoded value against the value the document describes (reflection, field by field), then encode/decode fixpoint (value stable up to the normal form after one round, bytes stable); equivalent variants of the generated documents and of the mocks (members reordered outside language maps, unknown members, a later duplicate of a member, strings and member names escaped differently, white space at every gap) decode to the value of the original; directed documents for duplicate member names, names spelt with and without an escape, and non-JSON white space; Coq: the decoder model on every generated document, on three variants (those under 3000 bytes) of each of the first n/6 documents and on the directed documents; non-trivial = document has at least 4 members; distinct by document text"}
 	g := NewGen(seed, "C05")
 	hdr := "From AP.Model Require Import Prelude Vocab JsonCodec.\n" +
 		"Definition ok (c : bytes * outcome item) : bool := let '(b, o) := c in\n" +
@@ -331,6 +331,12 @@ func runC05(seed int64, n int, tier string, outDir string) (*Report, error) {
 		"  match dec b with Some r => outcome_eqb item_eqb r o | None => true end.   (* outside the modelled domain: not judged *)\n"
 	cwM := NewCaseWriter(outDir, "Cases_C05_mock", hdrM, "bytes * outcome item")
 	cwM.SetChunk(10, 1)
+	// equivalent documents (member order, unknown members, later duplicates, escapes, white space) and the
+	// directed witnesses for duplicate names and white space: c05equiv.go
+	cwQ := NewCaseWriter(outDir, "Cases_C05_equiv", c05EquivHeader, "bytes * bool * outcome item")
+	cwQ.SetChunk(10, 1)
+	gq := NewGen(seed, "C05-equiv")
+	c05Directed(rep, cwQ)
 	coqBudget := n / 3
 	for i := 0; i < n; i++ {
 		d := c05Gen(g, 1+g.Intn(2))
@@ -355,6 +361,13 @@ func runC05(seed int64, n int, tier string, outDir string) (*Report, error) {
 		}
 		if i < 2 {
 			rep.Sample(string(text))
+		}
+		if i < n/6 && len(diffs) == 0 {
+			nq := 3
+			if i >= 400 {
+				nq = 0 // thorough tier: the variants beyond the first 400 documents are evaluated natively only
+			}
+			c05Equiv(rep, cwQ, gq, text, fmt.Sprintf("seed=%d index=%d", seed, i), nq)
 		}
 	}
 	// directed: an embedded object without id and type that holds exactly ONE property (every property of the
@@ -446,6 +459,7 @@ func runC05(seed int64, n int, tier string, outDir string) (*Report, error) {
 		if len(raw) < 3000 {
 			cwM.Add("("+hx(raw)+", Ok "+CoqItem(y)+")", "mock "+filepath.Base(p))
 		}
+		c05Equiv(rep, cwQ, gq, raw, "mock "+filepath.Base(p), 0)
 		var generic any
 		if json.Unmarshal(raw, &generic) != nil {
 			continue
@@ -480,6 +494,9 @@ func runC05(seed int64, n int, tier string, outDir string) (*Report, error) {
 		return nil, err
 	}
 	if err := rep.AddCases(cwM); err != nil {
+		return nil, err
+	}
+	if err := rep.AddCases(cwQ); err != nil {
 		return nil, err
 	}
 	return rep, nil
